@@ -92,6 +92,7 @@ class Kernel:
         self.line_hook = None  # optional callable(rec, frame) for at(k) sweeps / probes
         self.max_threads = 1
         self.thread_excs = []
+        self.handler_errors = []
         self.stalls = 0
         self.stall_ticks = 0
         self.late = 1  # ticks by which every timed wait overshoots its deadline
@@ -205,7 +206,7 @@ class Kernel:
                 # fire due events one at a time, threads get to run between two events
                 if self.heap and self.heap[0][0] <= self.now:
                     _, _, fn, args = heapq.heappop(self.heap)
-                    fn(*args)
+                    self._fire(fn, args)
                     continue
                 cands = self._ready_threads(True)
             if cands:
@@ -230,6 +231,17 @@ class Kernel:
             if nt > self.now:
                 self.now = nt
         self._switch_to(nxt)
+
+    def _fire(self, fn, args):
+        """run one event handler; a handler that raises is a harness defect and must not take the baton with it."""
+        try:
+            fn(*args)
+        except SimAbort:
+            raise
+        except BaseException as e:  # noqa
+            import traceback
+            self.handler_errors.append(f"{type(e).__name__}: {e}\n" + "".join(traceback.format_tb(e.__traceback__)[-3:]))
+            self._abort("handler_error")
 
     def _abort(self, reason):
         if self.abort_reason is None:
@@ -285,7 +297,7 @@ class Kernel:
         if timeout_ticks is not None and timeout_ticks <= 0:
             while self.heap and self.heap[0][0] <= self.now:
                 _, _, fn, args = heapq.heappop(self.heap)
-                fn(*args)
+                self._fire(fn, args)
             return bool(pred())
         cur.state = BLOCKED
         cur.pred = pred
@@ -443,7 +455,7 @@ class Kernel:
                 break
             if self.heap and self.heap[0][0] <= self.now:
                 _, _, fn, args = heapq.heappop(self.heap)
-                fn(*args)
+                self._fire(fn, args)
                 continue
             return
         idx = self.choice_idx
